@@ -129,3 +129,56 @@ def split_bnd_model(log, j, ss):
     P = log.last_op.e
     b = f.round0(p)
     return b, P, p, fj
+
+
+# ------------------------------------------------------------------ tokens, sets of tokens
+from .types import ListT, VAL, INT, sort_of, ValSort  # noqa
+from .values import L_len, L_get, V  # noqa
+
+_LV, _LI = ListT(VAL), ListT(INT)
+toks = z3.Function('toks', B, ValSort, sort_of(_LV))      # tokenize(s) with return_set == rs
+isectV = z3.Function('isectV', sort_of(_LV), sort_of(_LV), I)   # |set(a) & set(b)|
+isectI = z3.Function('isectI', sort_of(_LI), sort_of(_LI), I)
+nsetV = z3.Function('nsetV', sort_of(_LV), I)                    # |set(a)|
+nsetI = z3.Function('nsetI', sort_of(_LI), I)
+lev = z3.Function('lev', ValSort, ValSort, I)                    # Levenshtein distance
+memV = z3.Function('memV', sort_of(_LV), ValSort, B)             # x in a
+memI = z3.Function('memI', sort_of(_LI), I, B)
+
+
+def dupfree(ty, t):
+    i, j = z3.Ints('i!df j!df')
+    return z3.ForAll([i, j], z3.Implies(z3.And(i >= 0, i < j, j < L_len(ty, t)),
+                                        L_get(ty, t, i) != L_get(ty, t, j)),
+                     patterns=[z3.MultiPattern(L_get(ty, t, i), L_get(ty, t, j))])
+
+
+def toks_facts(rs, s):
+    t = toks(rs, s)
+    return [L_len(_LV, t) >= 0, z3.Implies(rs, dupfree(_LV, t)),
+            z3.Implies(rs, nsetV(t) == L_len(_LV, t)), nsetV(t) >= 0, nsetV(t) <= L_len(_LV, t),
+            (nsetV(t) == 0) == (L_len(_LV, t) == 0)]
+
+
+def isect_facts(elem_ty, a, b):
+    """basic facts about the intersection size of the element sets of two lists (V values)"""
+    if isinstance(elem_ty, type(INT)):
+        isect, nset = isectI, nsetI
+    else:
+        isect, nset = isectV, nsetV
+    o, n, m = isect(a.t, b.t), nset(a.t), nset(b.t)
+    return [o >= 0, o <= n, o <= m, n >= 0, m >= 0, n <= L_len(a.ty, a.t), m <= L_len(b.ty, b.t),
+            (n == 0) == (L_len(a.ty, a.t) == 0), (m == 0) == (L_len(b.ty, b.t) == 0),
+            isect(a.t, b.t) == isect(b.t, a.t)]
+
+
+from .types import DictT  # noqa
+ranks = z3.Function('ranks', sort_of(DictT(VAL, INT)), sort_of(_LV), sort_of(_LI))   # order_using_token_ordering
+
+val_of_float = z3.Function('val_of_float', Rl, ValSort)         # a cell holding the Python float x
+
+
+def simval_zero(M):
+    """no common token: the quotient is 0.0 exactly"""
+    n, m = z3.Ints('n!sz m!sz')
+    return z3.ForAll([n, m], simval[M](0, n, m) == 0, patterns=[simval[M](0, n, m)])
